@@ -1,6 +1,983 @@
-//! C11 — not implemented yet.
+//! C11 — An NFT moves only by its owner, its approved account or a live operator.
+//!
+//! Model: `owner[id]`, `approval[id] = (account, live_until)`, `operator[(owner, op)] = live_until`.
+//! Every call carries explicit authorization entries (auth modes Exact / Drop / Swap / Tamper /
+//! Surplus).  Safety: a call that succeeds must carry the exact entry of the documented authorizer
+//! AND satisfy the model's precondition (owner; or owner / live approved account / live operator of
+//! the CURRENT owner with `from` == current owner; approve only by owner or live operator).
+//! Exactness (documented): exact authorization + precondition => success.  After every step
+//! `owner_of`, `balance`, `get_approved` (every id) and `is_approved_for_all` (every pair) equal
+//! the model, so a failed call changed nothing, a transfer/burn cleared the approval, approvals
+//! never survive an ownership change and expire exactly after `live_until`.
+
+use super::c10::{Kind, Nft, Target, HIGH_BASE};
+use super::ftcore::{auth_strategy, live_strategy, AuthMode, Live};
 use crate::engine::*;
+use crate::envx::{self, Inv};
+use crate::gen::pick;
+use proptest::prelude::*;
+use serde::{Deserialize, Serialize};
+use soroban_sdk::{Address, TryFromVal, Val};
+use std::collections::{BTreeMap, BTreeSet};
+
+pub const N: usize = 5;
+
+/// actor chosen by its relation to the token at execution time
+#[derive(Clone, Debug, Serialize, Deserialize)]
+pub enum Role {
+    Owner,
+    /// account in the token's approval slot of the model (live or expired)
+    Approved,
+    /// an operator (live or expired) of the current owner
+    Operator(u16),
+    /// an operator of some account other than the current owner
+    ForeignOperator(u16),
+    FormerOwner(u16),
+    /// account whose approval for this token was cleared/replaced earlier
+    FormerApproved(u16),
+    /// none of the above
+    Stranger(u16),
+    Any(u16),
+}
+
+#[derive(Clone, Debug, Serialize, Deserialize)]
+pub enum FromSel {
+    Owner,
+    /// an account that named the spender its operator
+    PrincipalOfSpender(u16),
+    Any(u16),
+}
+
+#[derive(Clone, Debug, Serialize, Deserialize)]
+pub enum ToSel {
+    Acct(u16),
+    FormerOwner(u16),
+    /// self-transfer
+    Owner,
+    Spender,
+}
+
+#[derive(Clone, Debug, Serialize, Deserialize)]
+pub enum TokSel {
+    Existing(u16),
+    /// a token that currently has an approval entry in the model (falls back to Existing)
+    WithApproval(u16),
+    Burned(u16),
+    Fresh,
+}
+
+#[derive(Clone, Debug, Serialize, Deserialize)]
+pub enum Op {
+    Approve { tok: TokSel, approver: Role, approved: u16, live: Live, auth: AuthMode },
+    ApproveAll { owner: Role, tok: TokSel, operator: u16, live: Live, auth: AuthMode },
+    Transfer { tok: TokSel, from: FromSel, to: ToSel, auth: AuthMode },
+    TransferFrom { tok: TokSel, spender: Role, from: FromSel, to: ToSel, auth: AuthMode },
+    Burn { tok: TokSel, from: FromSel, auth: AuthMode },
+    BurnFrom { tok: TokSel, spender: Role, from: FromSel, auth: AuthMode },
+    Advance { k: u32 },
+    AdvanceToExpiry { which: u16, d: i8 },
+    Mint { to: u16 },
+    /// scripted probe: (approve if needed) -> owner sends the token to `via` -> `via` sends it back
+    /// -> the formerly approved account tries `transfer_from`
+    RoundTrip { tok: TokSel, via: u16, approved: u16 },
+    /// scripted probe of the expiry boundary: the owner approves `who` (for the token, or as operator)
+    /// until now+k, the ledger moves to live_until+d, then `who` tries transfer_from / burn_from
+    ExpiryProbe { tok: TokSel, who: u16, k: u8, d: i8, operator: bool, burn: bool },
+}
+
+#[derive(Clone, Debug, Serialize, Deserialize)]
+pub struct Case {
+    pub target: Target,
+    pub seq: u32,
+    pub small_ttl: bool,
+    /// initial mints: (recipient selector, count 1..=3)
+    pub init: Vec<(u16, u8)>,
+    pub ops: Vec<Op>,
+}
+
+fn role_strategy() -> BoxedStrategy<Role> {
+    prop_oneof![
+        4 => Just(Role::Owner),
+        5 => Just(Role::Approved),
+        5 => any::<u16>().prop_map(Role::Operator),
+        2 => any::<u16>().prop_map(Role::ForeignOperator),
+        2 => any::<u16>().prop_map(Role::FormerOwner),
+        3 => any::<u16>().prop_map(Role::FormerApproved),
+        2 => any::<u16>().prop_map(Role::Stranger),
+        1 => any::<u16>().prop_map(Role::Any),
+    ]
+    .boxed()
+}
+fn from_strategy() -> BoxedStrategy<FromSel> {
+    prop_oneof![
+        12 => Just(FromSel::Owner),
+        1 => any::<u16>().prop_map(FromSel::PrincipalOfSpender),
+        1 => any::<u16>().prop_map(FromSel::Any),
+    ]
+    .boxed()
+}
+fn to_strategy() -> BoxedStrategy<ToSel> {
+    prop_oneof![
+        6 => any::<u16>().prop_map(ToSel::Acct),
+        3 => any::<u16>().prop_map(ToSel::FormerOwner),
+        1 => Just(ToSel::Owner),
+        2 => Just(ToSel::Spender),
+    ]
+    .boxed()
+}
+fn tok_strategy() -> BoxedStrategy<TokSel> {
+    prop_oneof![
+        8 => any::<u16>().prop_map(TokSel::Existing),
+        6 => any::<u16>().prop_map(TokSel::WithApproval),
+        1 => any::<u16>().prop_map(TokSel::Burned),
+        1 => Just(TokSel::Fresh),
+    ]
+    .boxed()
+}
+
+/// live_until lattice: mostly valid and short (so that expiry is reached), plus the invalid corners
+fn live_strategy2() -> BoxedStrategy<Live> {
+    prop_oneof![
+        8 => prop_oneof![Just(0i32), Just(1), Just(2), 3i32..40, 40i32..400].prop_map(Live::Rel),
+        3 => live_strategy(),
+        2 => Just(Live::Abs(0)),
+    ]
+    .boxed()
+}
+
+fn op_strategy() -> BoxedStrategy<Op> {
+    let a = auth_strategy(20);
+    let live_strategy = live_strategy2;
+    prop_oneof![
+        7 => (tok_strategy(), prop_oneof![5 => Just(Role::Owner), 3 => any::<u16>().prop_map(Role::Operator), 2 => role_strategy()], any::<u16>(), live_strategy(), a.clone())
+            .prop_map(|(tok, approver, approved, live, auth)| Op::Approve { tok, approver, approved, live, auth }),
+        5 => (prop_oneof![4 => Just(Role::Owner), 1 => any::<u16>().prop_map(Role::Any)], tok_strategy(), any::<u16>(), live_strategy(), a.clone())
+            .prop_map(|(owner, tok, operator, live, auth)| Op::ApproveAll { owner, tok, operator, live, auth }),
+        3 => (tok_strategy(), from_strategy(), to_strategy(), a.clone()).prop_map(|(tok, from, to, auth)| Op::Transfer { tok, from, to, auth }),
+        9 => (tok_strategy(), role_strategy(), from_strategy(), to_strategy(), a.clone())
+            .prop_map(|(tok, spender, from, to, auth)| Op::TransferFrom { tok, spender, from, to, auth }),
+        1 => (tok_strategy(), from_strategy(), a.clone()).prop_map(|(tok, from, auth)| Op::Burn { tok, from, auth }),
+        3 => (tok_strategy(), role_strategy(), from_strategy(), a.clone()).prop_map(|(tok, spender, from, auth)| Op::BurnFrom { tok, spender, from, auth }),
+        2 => prop_oneof![Just(0u32), Just(1), Just(2), 3u32..80, 500u32..700].prop_map(|k| Op::Advance { k }),
+        4 => (any::<u16>(), -1i8..=1).prop_map(|(which, d)| Op::AdvanceToExpiry { which, d }),
+        1 => any::<u16>().prop_map(|to| Op::Mint { to }),
+        2 => (tok_strategy(), any::<u16>(), any::<u16>()).prop_map(|(tok, via, approved)| Op::RoundTrip { tok, via, approved }),
+        2 => (tok_strategy(), any::<u16>(), 0u8..40, -1i8..=1, any::<bool>(), proptest::bool::weighted(0.25))
+            .prop_map(|(tok, who, k, d, operator, burn)| Op::ExpiryProbe { tok, who, k, d, operator, burn }),
+    ]
+    .boxed()
+}
+
+fn strategy_kind(kind: Kind, tier: Tier) -> BoxedStrategy<Case> {
+    let max_ops = tier.pick(35usize, 70usize);
+    let targets: BoxedStrategy<Target> = match kind {
+        Kind::Base => prop_oneof![2 => Just(Target::ExBase), 1 => Just(Target::XBase)].boxed(),
+        Kind::Enum => prop_oneof![2 => Just(Target::ExEnum), 1 => Just(Target::XEnum)].boxed(),
+        Kind::Cons => prop_oneof![2 => Just(Target::ExCons), 1 => Just(Target::XCons)].boxed(),
+    };
+    (
+        targets,
+        100u32..5000,
+        proptest::bool::weighted(0.3),
+        proptest::collection::vec((any::<u16>(), 1u8..=3), 1..4),
+        proptest::collection::vec(op_strategy(), 1..max_ops),
+    )
+        .prop_map(|(target, seq, small_ttl, init, ops)| Case { target, seq, small_ttl, init, ops })
+        .boxed()
+}
+
+// ======================================================================== model
+
+#[derive(Default, Clone)]
+struct M {
+    owner: BTreeMap<u32, usize>,
+    approval: BTreeMap<u32, (usize, u32)>,
+    operator: BTreeMap<(usize, usize), u32>,
+    burned: BTreeSet<u32>,
+    former_owner: BTreeMap<u32, Vec<usize>>,
+    former_approved: BTreeMap<u32, Vec<usize>>,
+    count: Vec<u32>,
+    /// every id ever seen (existing or burned), for the approval sweep
+    ids: BTreeSet<u32>,
+    next_seq: u32,
+    next_explicit: u32,
+    expiries: Vec<u32>,
+}
+
+impl M {
+    fn approved_live(&self, id: u32, now: u32) -> Option<usize> {
+        self.approval.get(&id).filter(|(_, u)| *u >= now).map(|(a, _)| *a)
+    }
+    fn operator_live(&self, o: usize, p: usize, now: u32) -> bool {
+        self.operator.get(&(o, p)).is_some_and(|u| *u >= now)
+    }
+    fn resolve_tok(&self, s: &TokSel) -> u32 {
+        match s {
+            TokSel::Existing(i) => {
+                if self.owner.is_empty() {
+                    self.next_seq + 3
+                } else {
+                    *self.owner.keys().nth(pick(*i, self.owner.len())).unwrap()
+                }
+            }
+            TokSel::WithApproval(i) => {
+                let v: Vec<u32> = self.approval.keys().copied().filter(|k| self.owner.contains_key(k)).collect();
+                if v.is_empty() {
+                    self.resolve_tok(&TokSel::Existing(*i))
+                } else {
+                    v[pick(*i, v.len())]
+                }
+            }
+            TokSel::Burned(i) => {
+                if self.burned.is_empty() {
+                    self.next_seq + 5
+                } else {
+                    *self.burned.iter().nth(pick(*i, self.burned.len())).unwrap()
+                }
+            }
+            TokSel::Fresh => self.next_seq,
+        }
+    }
+    /// (account, did the role exist)
+    fn resolve_role(&self, r: &Role, id: u32) -> (usize, bool) {
+        let owner = self.owner.get(&id).copied();
+        let from_list = |v: Vec<usize>, i: &u16| -> (usize, bool) {
+            if v.is_empty() {
+                (pick(*i, N), false)
+            } else {
+                (v[pick(*i, v.len())], true)
+            }
+        };
+        match r {
+            Role::Owner => (owner.unwrap_or(0), owner.is_some()),
+            Role::Approved => match self.approval.get(&id) {
+                Some((a, _)) => (*a, true),
+                None => (owner.map(|o| (o + 1) % N).unwrap_or(1), false),
+            },
+            Role::Operator(i) => from_list(self.operator.keys().filter(|(o, _)| Some(*o) == owner).map(|(_, p)| *p).collect(), i),
+            Role::ForeignOperator(i) => from_list(
+                self.operator.keys().filter(|(o, p)| Some(*o) != owner && !self.operator.contains_key(&(owner.unwrap_or(N), *p))).map(|(_, p)| *p).collect(),
+                i,
+            ),
+            Role::FormerOwner(i) => from_list(self.former_owner.get(&id).cloned().unwrap_or_default().into_iter().filter(|a| Some(*a) != owner).collect(), i),
+            Role::FormerApproved(i) => from_list(
+                self.former_approved.get(&id).cloned().unwrap_or_default().into_iter().filter(|a| Some(*a) != owner && self.approval.get(&id).map(|x| x.0) != Some(*a)).collect(),
+                i,
+            ),
+            Role::Stranger(i) => from_list(
+                (0..N)
+                    .filter(|a| {
+                        Some(*a) != owner
+                            && self.approval.get(&id).map(|x| x.0) != Some(*a)
+                            && !self.operator.keys().any(|(_, p)| p == a)
+                            && !self.former_owner.get(&id).is_some_and(|v| v.contains(a))
+                            && !self.former_approved.get(&id).is_some_and(|v| v.contains(a))
+                    })
+                    .collect(),
+                i,
+            ),
+            Role::Any(i) => (pick(*i, N), true),
+        }
+    }
+}
+
+fn resolve_live(e: &soroban_sdk::Env, l: &Live) -> u32 {
+    let seq = e.ledger().sequence();
+    match l {
+        Live::Rel(d) => (seq as i64 + *d as i64).clamp(0, u32::MAX as i64) as u32,
+        Live::MaxPlus(d) => (e.ledger().max_live_until_ledger() as i64 + *d as i64).clamp(0, u32::MAX as i64) as u32,
+        Live::Abs(x) => *x,
+    }
+}
+
+// ======================================================================== calls
+
+#[derive(Clone, Debug)]
+enum Call {
+    Transfer { from: usize, to: usize, id: u32 },
+    TransferFrom { sp: usize, from: usize, to: usize, id: u32 },
+    Burn { from: usize, id: u32 },
+    BurnFrom { sp: usize, from: usize, id: u32 },
+    Approve { approver: usize, approved: usize, id: u32, live: u32 },
+    ApproveAll { owner: usize, operator: usize, live: u32 },
+}
+
+impl Call {
+    fn func(&self) -> &'static str {
+        match self {
+            Call::Transfer { .. } => "transfer",
+            Call::TransferFrom { .. } => "transfer_from",
+            Call::Burn { .. } => "burn",
+            Call::BurnFrom { .. } => "burn_from",
+            Call::Approve { .. } => "approve",
+            Call::ApproveAll { .. } => "approve_for_all",
+        }
+    }
+    /// the documented authorizer
+    fn signer(&self) -> usize {
+        match self {
+            Call::Transfer { from, .. } | Call::Burn { from, .. } => *from,
+            Call::TransferFrom { sp, .. } | Call::BurnFrom { sp, .. } => *sp,
+            Call::Approve { approver, .. } => *approver,
+            Call::ApproveAll { owner, .. } => *owner,
+        }
+    }
+    fn args(&self, t: &Nft) -> Vec<Val> {
+        let a = |i: &usize| t.v(&t.accts[*i]);
+        match self {
+            Call::Transfer { from, to, id } => vec![a(from), a(to), t.v(id)],
+            Call::TransferFrom { sp, from, to, id } => vec![a(sp), a(from), a(to), t.v(id)],
+            Call::Burn { from, id } => vec![a(from), t.v(id)],
+            Call::BurnFrom { sp, from, id } => vec![a(sp), a(from), t.v(id)],
+            Call::Approve { approver, approved, id, live } => vec![a(approver), a(approved), t.v(id), t.v(live)],
+            Call::ApproveAll { owner, operator, live } => vec![a(owner), a(operator), t.v(live)],
+        }
+    }
+    /// index of the token-id argument
+    fn id_arg(&self) -> Option<usize> {
+        match self {
+            Call::Transfer { .. } => Some(2),
+            Call::TransferFrom { .. } => Some(3),
+            Call::Burn { .. } => Some(1),
+            Call::BurnFrom { .. } | Call::Approve { .. } => Some(2),
+            Call::ApproveAll { .. } => None,
+        }
+    }
+    fn token(&self) -> Option<u32> {
+        match self {
+            Call::Transfer { id, .. } | Call::TransferFrom { id, .. } | Call::Burn { id, .. } | Call::BurnFrom { id, .. } | Call::Approve { id, .. } => Some(*id),
+            Call::ApproveAll { .. } => None,
+        }
+    }
+}
+
+/// authorization entries for `mode`; `exact` = the documented authorizer's exact entry is attached
+fn build_auth(t: &Nft, c: &Call, mode: &AuthMode) -> (Vec<(Address, Inv)>, bool) {
+    let e = &t.e;
+    let args = c.args(t);
+    let func = c.func();
+    let si = c.signer();
+    let signer = t.accts[si].clone();
+    let inv = t.inv(func, &args);
+    match mode {
+        AuthMode::Exact => (vec![(signer, inv)], true),
+        AuthMode::Drop(_) => (vec![], false),
+        AuthMode::Swap(_, o) => {
+            // somebody else signs the very same invocation
+            let pool: Vec<Address> = t.accts.iter().enumerate().filter(|(i, _)| *i != si).map(|(_, a)| a.clone()).chain([t.admin.clone()]).collect();
+            (vec![(pool[pick(*o, pool.len())].clone(), inv)], false)
+        }
+        AuthMode::Tamper(_, k) => {
+            let mut a2 = args.clone();
+            let mut changed = false;
+            if let (Some(ix), true) = (c.id_arg(), *k % 2 == 0) {
+                if let Ok(x) = u32::try_from_val(e, &a2[ix]) {
+                    a2[ix] = t.v(&(if *k == 0 { x.wrapping_add(1) } else { x.wrapping_sub(1) }));
+                    changed = true;
+                }
+            }
+            if !changed {
+                // last address argument (recipient / approved / operator, else the only party) -> admin
+                for v in a2.iter_mut().rev() {
+                    if Address::try_from_val(e, v).is_ok() {
+                        *v = t.v(&t.admin);
+                        changed = true;
+                        break;
+                    }
+                }
+            }
+            (vec![(signer, t.inv(func, &a2))], !changed)
+        }
+        AuthMode::Surplus(o) => {
+            let mut v = vec![(signer.clone(), inv)];
+            let other = pick(*o, N);
+            if other != si {
+                let who = t.accts[other].clone();
+                let junk = t.inv("approve_for_all", &[t.v(&who), t.v(&signer), t.v(&0u32)]);
+                v.push((who, junk));
+            }
+            (v, true)
+        }
+    }
+}
+
+/// Why the model forbids a call (used as class name and in the signature).
+type Deny = &'static str;
+
+fn precondition(m: &M, c: &Call, now: u32, max_live: u32) -> Result<(), Deny> {
+    let spender_ok = |sp: usize, owner: usize, id: u32| -> Result<(), Deny> {
+        if sp == owner || m.approved_live(id, now) == Some(sp) || m.operator_live(owner, sp, now) {
+            return Ok(());
+        }
+        // classify the stale claim, if any
+        if m.approval.get(&id).is_some_and(|(a, _)| *a == sp) {
+            return Err("expired-approval");
+        }
+        if m.operator.contains_key(&(owner, sp)) {
+            return Err("expired-operator");
+        }
+        if m.former_approved.get(&id).is_some_and(|v| v.contains(&sp)) {
+            return Err("cleared-approval");
+        }
+        if m.former_owner.get(&id).is_some_and(|v| v.contains(&sp)) {
+            return Err("former-owner");
+        }
+        if m.operator.iter().any(|((o, p), u)| *p == sp && *o != owner && *u >= now) {
+            return Err("operator-of-another-owner");
+        }
+        Err("no-approval")
+    };
+    let live_ok = |live: u32| -> Result<(), Deny> {
+        if live == 0 {
+            Ok(())
+        } else if live < now {
+            Err("live-until-in-the-past")
+        } else if live > max_live {
+            Err("live-until-beyond-max-ttl")
+        } else {
+            Ok(())
+        }
+    };
+    match c {
+        Call::Transfer { from, id, .. } | Call::Burn { from, id } => match m.owner.get(id) {
+            None => Err("nonexistent-token"),
+            Some(o) if o != from => Err(if m.former_owner.get(id).is_some_and(|v| v.contains(from)) { "former-owner" } else { "not-owner" }),
+            Some(_) => Ok(()),
+        },
+        Call::TransferFrom { sp, from, id, .. } | Call::BurnFrom { sp, from, id } => match m.owner.get(id) {
+            None => Err("nonexistent-token"),
+            Some(o) if o != from => Err("from-not-owner"),
+            Some(o) => spender_ok(*sp, *o, *id),
+        },
+        Call::Approve { approver, id, live, .. } => match m.owner.get(id) {
+            None => Err("nonexistent-token"),
+            Some(o) => {
+                if approver != o && !m.operator_live(*o, *approver, now) {
+                    if m.operator.contains_key(&(*o, *approver)) {
+                        return Err("expired-operator");
+                    }
+                    if m.former_owner.get(id).is_some_and(|v| v.contains(approver)) {
+                        return Err("former-owner");
+                    }
+                    return Err("approver-not-owner-nor-operator");
+                }
+                live_ok(*live)
+            }
+        },
+        Call::ApproveAll { live, .. } => live_ok(*live),
+    }
+}
+
+fn is_stale(d: Deny) -> bool {
+    matches!(d, "expired-approval" | "expired-operator" | "cleared-approval" | "former-owner" | "operator-of-another-owner")
+}
+
+struct St<'a> {
+    t: &'a Nft,
+    m: M,
+    stale_rejected: bool,
+    live_accepted: bool,
+}
+
+impl<'a> St<'a> {
+    fn sig(&self, func: &str, clause: &str) -> String {
+        format!("C11/{func}/{clause}/{}", self.t.target.kname())
+    }
+
+    fn now(&self) -> u32 {
+        envx::seq(&self.t.e)
+    }
+
+    /// the whole observable state equals the model
+    fn check_state(&self, what: &str, func: &str) -> R {
+        let t = self.t;
+        let m = &self.m;
+        let now = self.now();
+        let ids: Vec<u32> = m.owner.keys().copied().collect();
+        let owners = t.read_owners(&ids);
+        for (id, g) in ids.iter().zip(owners.iter()) {
+            let want = m.owner[id];
+            ensure!(
+                matches!(g, Some(a) if *a == t.accts[want]),
+                self.sig(func, "owner-mismatch"),
+                "{what}: owner_of({id}) = {:?}, model says account #{want}",
+                g.as_ref().map(|a| t.acct_index(a))
+            );
+        }
+        let bal = t.read_balances();
+        for (i, b) in bal.iter().enumerate() {
+            ensure!(*b == m.count[i], self.sig(func, "balance-mismatch"), "{what}: balance(#{i}) = {b}, model {}", m.count[i]);
+        }
+        let all: Vec<u32> = m.ids.iter().copied().collect();
+        let (ap, ops) = t.read_approvals(&all);
+        for (id, g) in all.iter().zip(ap.iter()) {
+            let want = if m.owner.contains_key(id) { m.approved_live(*id, now) } else { None };
+            let got = g.as_ref().map(|a| t.acct_index(a));
+            let clause = match (want, &got) {
+                (None, Some(_)) if !m.owner.contains_key(id) => "approval-on-burned-token",
+                (None, Some(_)) if m.approval.contains_key(id) => "expired-approval-still-reported",
+                (None, Some(_)) => "approval-not-cleared",
+                (Some(_), None) => "live-approval-not-reported",
+                _ => "approval-mismatch",
+            };
+            ensure!(
+                got == want.map(Some),
+                self.sig("get_approved", clause),
+                "{what}: at ledger {now} get_approved({id}) = {:?}, model {:?} (stored {:?})",
+                got,
+                want,
+                m.approval.get(id)
+            );
+        }
+        for o in 0..N {
+            for p in 0..N {
+                let want = m.operator_live(o, p, now);
+                ensure!(
+                    ops[o][p] == want,
+                    self.sig("is_approved_for_all", if want { "live-operator-not-reported" } else { "dead-operator-reported" }),
+                    "{what}: at ledger {now} is_approved_for_all(#{o}, #{p}) = {}, model {want} (stored {:?})",
+                    ops[o][p],
+                    m.operator.get(&(o, p))
+                );
+            }
+        }
+        Ok(())
+    }
+
+    /// entry points agree with the library getters for the touched token / pair
+    fn check_api(&self, c: &Call, what: &str) -> R {
+        let t = self.t;
+        let m = &self.m;
+        let now = self.now();
+        if let Some(id) = c.token() {
+            let want = if m.owner.contains_key(&id) { m.approved_live(id, now) } else { None };
+            let r = t.api_get_approved(id);
+            ensure!(
+                matches!(&r, Ok(g) if g.as_ref().map(|a| t.acct_index(a)) == want.map(Some)),
+                self.sig("get_approved", "entry-point-mismatch"),
+                "{what}: entry point get_approved({id}) = {:?}, model {:?}",
+                r.map(|g| g.map(|a| t.acct_index(&a))),
+                want
+            );
+            let r = t.api_owner_of(id);
+            match m.owner.get(&id) {
+                Some(o) => ensure!(
+                    matches!(&r, Ok(a) if *a == t.accts[*o]),
+                    self.sig("owner_of", "entry-point-mismatch"),
+                    "{what}: entry point owner_of({id}) differs from model #{o}"
+                ),
+                None => ensure!(r.is_err(), self.sig("owner_of", "nonexistent-token-has-owner"), "{what}: owner_of({id}) succeeded for a token that does not exist"),
+            }
+        }
+        if let Call::ApproveAll { owner, operator, .. } = c {
+            let r = t.api_is_approved_for_all(&t.accts[*owner], &t.accts[*operator]);
+            let want = m.operator_live(*owner, *operator, now);
+            ensure!(r == Ok(want), self.sig("is_approved_for_all", "entry-point-mismatch"), "{what}: entry point says {:?}, model {want}", r);
+        }
+        Ok(())
+    }
+
+    /// one call: authorization per `mode`, outcome vs model, effect, full state comparison
+    fn call(&mut self, c: &Call, mode: &AuthMode, ctx: &mut Ctx, what: &str) -> R {
+        let t = self.t;
+        let func = c.func();
+        let now = self.now();
+        let max_live = t.e.ledger().max_live_until_ledger();
+        let (entries, exact) = build_auth(t, c, mode);
+        let pre = precondition(&self.m, c, now, max_live);
+        let r = t.invoke_with(func, &c.args(t), &entries);
+        ctx.op(r.is_ok());
+        ctx.class(match mode {
+            AuthMode::Exact => "auth_exact",
+            AuthMode::Drop(_) => "auth_drop",
+            AuthMode::Swap(..) => "auth_swap",
+            AuthMode::Tamper(..) => "auth_tamper",
+            AuthMode::Surplus(_) => "auth_surplus",
+        });
+        match (r.is_ok(), exact, &pre) {
+            (true, false, _) => bail!(
+                self.sig(func, "succeeded-without-required-authorization"),
+                "{what}: {:?} succeeded under auth mode {:?} although account #{} did not authorize exactly this call",
+                c,
+                mode,
+                c.signer()
+            ),
+            (true, true, Err(d)) => bail!(
+                self.sig(func, &format!("unauthorized:{d}")),
+                "{what}: at ledger {now} {:?} succeeded although the model forbids it ({d}); owner {:?}, approval {:?}, operators {:?}",
+                c,
+                c.token().and_then(|id| self.m.owner.get(&id)),
+                c.token().and_then(|id| self.m.approval.get(&id)),
+                self.m.operator
+            ),
+            (false, true, Ok(())) => bail!(
+                self.sig(func, "refused-although-authorized"),
+                "{what}: at ledger {now} {:?} failed ({}) although the documented preconditions hold; owner {:?}, approval {:?}, operators {:?}",
+                c,
+                r.as_ref().err().map(|s| s.chars().take(80).collect::<String>()).unwrap_or_default(),
+                c.token().and_then(|id| self.m.owner.get(&id)),
+                c.token().and_then(|id| self.m.approval.get(&id)),
+                self.m.operator
+            ),
+            (false, true, Err(d)) => {
+                ctx.class(&format!("rejected:{d}"));
+                if is_stale(d) {
+                    self.stale_rejected = true;
+                    ctx.class("stale_claim_rejected");
+                }
+            }
+            (false, false, _) => {
+                ctx.class("rejected:missing-authorization");
+                if pre.is_ok() {
+                    ctx.class("rejected_only_for_missing_authorization");
+                }
+            }
+            (true, true, Ok(())) => self.apply(c, now, ctx),
+        }
+        self.check_state(what, func)?;
+        self.check_api(c, what)
+    }
+
+    fn apply(&mut self, c: &Call, now: u32, ctx: &mut Ctx) {
+        let m = &mut self.m;
+        fn clear_approval(m: &mut M, id: u32, ctx: &mut Ctx) {
+            if let Some((a, _)) = m.approval.remove(&id) {
+                m.former_approved.entry(id).or_default().push(a);
+                ctx.class("approval_cleared_by_move");
+            }
+        }
+        match c {
+            Call::Transfer { from, to, id } | Call::TransferFrom { from, to, id, .. } => {
+                if let Call::TransferFrom { sp, .. } = c {
+                    if sp != from {
+                        self.live_accepted = true;
+                        ctx.class(if m.approved_live(*id, now) == Some(*sp) { "moved_by_live_approved" } else { "moved_by_live_operator" });
+                    }
+                }
+                clear_approval(m, *id, ctx);
+                m.owner.insert(*id, *to);
+                m.count[*from] -= 1;
+                m.count[*to] += 1;
+                if from != to {
+                    m.former_owner.entry(*id).or_default().push(*from);
+                    ctx.class("ownership_changed");
+                    if m.former_owner[id].contains(to) {
+                        ctx.class("token_returned_to_former_owner");
+                    }
+                }
+            }
+            Call::Burn { from, id } | Call::BurnFrom { from, id, .. } => {
+                if let Call::BurnFrom { sp, .. } = c {
+                    if sp != from {
+                        self.live_accepted = true;
+                        ctx.class(if m.approved_live(*id, now) == Some(*sp) { "burned_by_live_approved" } else { "burned_by_live_operator" });
+                    }
+                }
+                clear_approval(m, *id, ctx);
+                m.owner.remove(id);
+                m.count[*from] -= 1;
+                m.burned.insert(*id);
+                ctx.class("burned");
+            }
+            Call::Approve { approver, approved, id, live } => {
+                if Some(approver) != m.owner.get(id) {
+                    ctx.class("approve_by_operator");
+                }
+                if let Some((a, _)) = m.approval.remove(id) {
+                    if a != *approved || *live == 0 {
+                        m.former_approved.entry(*id).or_default().push(a);
+                    }
+                }
+                if *live == 0 {
+                    ctx.class("approval_revoked");
+                } else {
+                    m.approval.insert(*id, (*approved, *live));
+                    m.expiries.push(*live);
+                    ctx.class("approval_set");
+                }
+            }
+            Call::ApproveAll { owner, operator, live } => {
+                if *live == 0 {
+                    m.operator.remove(&(*owner, *operator));
+                    ctx.class("operator_revoked");
+                } else {
+                    m.operator.insert((*owner, *operator), *live);
+                    m.expiries.push(*live);
+                    ctx.class("operator_set");
+                }
+            }
+        }
+    }
+
+    fn mint(&mut self, to: usize, n: u8, explicit: bool, what: &str) -> R {
+        let t = self.t;
+        let acct = t.accts[to].clone();
+        let mut new_ids = vec![];
+        match (t.target.kind(), explicit) {
+            (Kind::Cons, _) => {
+                let last = t.batch_mint(&acct, n as u32).map_err(|er| violation(self.sig("batch_mint", "refused"), format!("{what}: {er}")))?;
+                for k in 0..n as u32 {
+                    new_ids.push(last - (n as u32 - 1) + k);
+                }
+            }
+            (_, true) => {
+                for _ in 0..n {
+                    let id = HIGH_BASE + self.m.next_explicit;
+                    self.m.next_explicit += 1;
+                    t.mint_id(&acct, id).map_err(|er| violation(self.sig("mint_id", "refused"), format!("{what}: {er}")))?;
+                    new_ids.push(id);
+                }
+            }
+            _ => {
+                for _ in 0..n {
+                    let id = t.mint_seq(&acct).map_err(|er| violation(self.sig("mint", "refused"), format!("{what}: {er}")))?;
+                    new_ids.push(id);
+                }
+            }
+        }
+        for id in new_ids {
+            ensure!(!self.m.ids.contains(&id), self.sig("mint", "id-reused"), "{what}: minted id {id} was issued before");
+            self.m.owner.insert(id, to);
+            self.m.count[to] += 1;
+            self.m.ids.insert(id);
+            if id < HIGH_BASE {
+                self.m.next_seq = self.m.next_seq.max(id + 1);
+            }
+        }
+        self.check_state(what, "mint")
+    }
+
+    fn resolve_from(&self, f: &FromSel, id: u32, spender: Option<usize>) -> usize {
+        match f {
+            FromSel::Owner => self.m.owner.get(&id).copied().unwrap_or(0),
+            FromSel::PrincipalOfSpender(i) => {
+                let v: Vec<usize> = self.m.operator.keys().filter(|(_, p)| Some(*p) == spender).map(|(o, _)| *o).collect();
+                if v.is_empty() {
+                    pick(*i, N)
+                } else {
+                    v[pick(*i, v.len())]
+                }
+            }
+            FromSel::Any(i) => pick(*i, N),
+        }
+    }
+    fn resolve_to(&self, s: &ToSel, id: u32, spender: usize) -> usize {
+        match s {
+            ToSel::Acct(i) => pick(*i, N),
+            ToSel::FormerOwner(i) => {
+                let v = self.m.former_owner.get(&id).cloned().unwrap_or_default();
+                if v.is_empty() {
+                    pick(*i, N)
+                } else {
+                    v[pick(*i, v.len())]
+                }
+            }
+            ToSel::Owner => self.m.owner.get(&id).copied().unwrap_or(0),
+            ToSel::Spender => spender,
+        }
+    }
+}
+
+pub fn run(case: &Case, ctx: &mut Ctx) -> R {
+    let max_ttl = if case.small_ttl { 600 } else { envx::BIG_TTL };
+    let t = Nft::setup(case.target, N, case.seq, max_ttl);
+    let e = &t.e;
+    let mut st = St { t: &t, m: M { count: vec![0; N], ..Default::default() }, stale_rejected: false, live_accepted: false };
+    for (i, (to, n)) in case.init.iter().enumerate() {
+        let explicit = case.target.explicit() && i % 2 == 1;
+        st.mint(pick(*to, N), *n, explicit, &format!("initial mint {i}"))?;
+    }
+
+    for (step, op) in case.ops.iter().enumerate() {
+        let what = format!("step {step} {:?}", op);
+        match op {
+            Op::Advance { k } => {
+                envx::advance(e, *k);
+                st.check_state(&what, "advance")?;
+            }
+            Op::AdvanceToExpiry { which, d } => {
+                if !st.m.expiries.is_empty() {
+                    let target = st.m.expiries[pick(*which, st.m.expiries.len())] as i64 + *d as i64;
+                    let now = envx::seq(e) as i64;
+                    if target > now && target - now < 100_000 {
+                        envx::set_seq(e, target as u32);
+                        ctx.class(match d {
+                            -1 => "advance_to_expiry_minus_1",
+                            0 => "advance_to_expiry",
+                            _ => "advance_to_expiry_plus_1",
+                        });
+                    }
+                }
+                st.check_state(&what, "advance")?;
+            }
+            Op::Mint { to } => {
+                if st.m.ids.len() < 16 {
+                    let explicit = case.target.explicit() && step % 2 == 1;
+                    st.mint(pick(*to, N), 1, explicit, &what)?;
+                }
+            }
+            Op::Approve { tok, approver, approved, live, auth } => {
+                let id = st.m.resolve_tok(tok);
+                let (ap, _) = st.m.resolve_role(approver, id);
+                let c = Call::Approve { approver: ap, approved: pick(*approved, N), id, live: resolve_live(e, live) };
+                st.call(&c, auth, ctx, &what)?;
+            }
+            Op::ApproveAll { owner, tok, operator, live, auth } => {
+                let id = st.m.resolve_tok(tok);
+                let (o, _) = st.m.resolve_role(owner, id);
+                let c = Call::ApproveAll { owner: o, operator: pick(*operator, N), live: resolve_live(e, live) };
+                st.call(&c, auth, ctx, &what)?;
+            }
+            Op::Transfer { tok, from, to, auth } => {
+                let id = st.m.resolve_tok(tok);
+                let f = st.resolve_from(from, id, None);
+                let c = Call::Transfer { from: f, to: st.resolve_to(to, id, f), id };
+                st.call(&c, auth, ctx, &what)?;
+            }
+            Op::TransferFrom { tok, spender, from, to, auth } => {
+                let id = st.m.resolve_tok(tok);
+                let (sp, had) = st.m.resolve_role(spender, id);
+                if had {
+                    ctx.class(role_class(spender));
+                }
+                let f = st.resolve_from(from, id, Some(sp));
+                let c = Call::TransferFrom { sp, from: f, to: st.resolve_to(to, id, sp), id };
+                st.call(&c, auth, ctx, &what)?;
+            }
+            Op::Burn { tok, from, auth } => {
+                let id = st.m.resolve_tok(tok);
+                let c = Call::Burn { from: st.resolve_from(from, id, None), id };
+                st.call(&c, auth, ctx, &what)?;
+            }
+            Op::BurnFrom { tok, spender, from, auth } => {
+                let id = st.m.resolve_tok(tok);
+                let (sp, had) = st.m.resolve_role(spender, id);
+                if had {
+                    ctx.class(role_class(spender));
+                }
+                let c = Call::BurnFrom { sp, from: st.resolve_from(from, id, Some(sp)), id };
+                st.call(&c, auth, ctx, &what)?;
+            }
+            Op::ExpiryProbe { tok, who, k, d, operator, burn } => {
+                let id = st.m.resolve_tok(tok);
+                let Some(o) = st.m.owner.get(&id).copied() else { continue };
+                let mut w = pick(*who, N);
+                if w == o {
+                    w = (w + 1) % N;
+                }
+                let now = envx::seq(e);
+                let until = now + *k as u32;
+                let c = if *operator {
+                    Call::ApproveAll { owner: o, operator: w, live: until }
+                } else {
+                    Call::Approve { approver: o, approved: w, id, live: until }
+                };
+                st.call(&c, &AuthMode::Exact, ctx, &format!("{what} [grant until {until}]"))?;
+                let target = until as i64 + *d as i64;
+                if target > now as i64 {
+                    envx::set_seq(e, target as u32);
+                }
+                st.check_state(&format!("{what} [ledger {}]", envx::seq(e)), "advance")?;
+                ctx.class(match (envx::seq(e) as i64 - until as i64).signum() {
+                    -1 => "expiry_probe_before",
+                    0 => "expiry_probe_at",
+                    _ => "expiry_probe_after",
+                });
+                let c = if *burn { Call::BurnFrom { sp: w, from: o, id } } else { Call::TransferFrom { sp: w, from: o, to: w, id } };
+                st.call(&c, &AuthMode::Exact, ctx, &format!("{what} [use at ledger {}]", envx::seq(e)))?;
+            }
+            Op::RoundTrip { tok, via, approved } => {
+                let id = st.m.resolve_tok(tok);
+                let Some(o) = st.m.owner.get(&id).copied() else { continue };
+                let now = envx::seq(e);
+                // an account with a live approval that is neither the owner nor an operator of the owner
+                let ap = match st.m.approved_live(id, now) {
+                    Some(a) => a,
+                    None => {
+                        let a = pick(*approved, N);
+                        let c = Call::Approve { approver: o, approved: a, id, live: now + 50 };
+                        st.call(&c, &AuthMode::Exact, ctx, &format!("{what} [approve]"))?;
+                        a
+                    }
+                };
+                let mut v = pick(*via, N);
+                if v == o {
+                    v = (v + 1) % N;
+                }
+                st.call(&Call::Transfer { from: o, to: v, id }, &AuthMode::Exact, ctx, &format!("{what} [away]"))?;
+                st.call(&Call::Transfer { from: v, to: o, id }, &AuthMode::Exact, ctx, &format!("{what} [back]"))?;
+                ctx.class("roundtrip_probe");
+                // the formerly approved account retries: allowed only if it has another, live title
+                st.call(&Call::TransferFrom { sp: ap, from: o, to: ap, id }, &AuthMode::Exact, ctx, &format!("{what} [former approved retries]"))?;
+            }
+        }
+    }
+    if st.stale_rejected && st.live_accepted {
+        ctx.nontrivial = true;
+        ctx.class("nontrivial");
+    }
+    Ok(())
+}
+
+fn role_class(r: &Role) -> &'static str {
+    match r {
+        Role::Owner => "spender_owner",
+        Role::Approved => "spender_approved",
+        Role::Operator(_) => "spender_operator",
+        Role::ForeignOperator(_) => "spender_foreign_operator",
+        Role::FormerOwner(_) => "spender_former_owner",
+        Role::FormerApproved(_) => "spender_former_approved",
+        Role::Stranger(_) => "spender_stranger",
+        Role::Any(_) => "spender_any",
+    }
+}
+
+fn strat_base(tier: Tier) -> BoxedStrategy<Case> {
+    strategy_kind(Kind::Base, tier)
+}
+fn strat_enum(tier: Tier) -> BoxedStrategy<Case> {
+    strategy_kind(Kind::Enum, tier)
+}
+fn strat_cons(tier: Tier) -> BoxedStrategy<Case> {
+    strategy_kind(Kind::Cons, tier)
+}
 
 pub fn property() -> Property {
-    Property { id: "C11", rule: "", subs: vec![], floors: vec![], assumptions: vec![] }
+    Property {
+        id: "C11",
+        rule: "case = (target: example or harness twin of base/enumerable/consecutive, start ledger, small/large max TTL, 1..3 initial mints, history \
+               of <=35 (thorough 70) ops: approve / approve_for_all / revoke (live_until 0) / transfer / transfer_from / burn / burn_from / ledger \
+               advance (also to each approval's expiry -1/0/+1) / round-trip probe; actors by role (owner, approved, operator, foreign operator, \
+               former owner, former approved, stranger); auth modes Exact/Drop/Swap/Tamper/Surplus; live_until from the ledger lattice); \
+               non-trivial = a stale claim (expired or cleared approval, former owner, expired or foreign operator) was exercised with exact \
+               authorization and rejected AND a live approval/operator moved or burned a token; distinct = distinct serialised case",
+        subs: vec![
+            gen_sub::<Case>("base", 800, 15000, strat_base, run),
+            gen_sub::<Case>("enumerable", 800, 15000, strat_enum, run),
+            gen_sub::<Case>("consecutive", 800, 15000, strat_cons, run),
+        ],
+        floors: vec![
+            ("nontrivial", 80, 1400),
+            ("stale_claim_rejected", 300, 5000),
+            ("moved_by_live_approved", 50, 900),
+            ("moved_by_live_operator", 60, 1000),
+            ("rejected:expired-approval", 30, 500),
+            ("rejected:expired-operator", 60, 1000),
+            ("rejected:cleared-approval", 120, 2000),
+            ("rejected:operator-of-another-owner", 15, 250),
+            ("expiry_probe_at", 50, 900),
+            ("expiry_probe_after", 50, 900),
+            ("approval_cleared_by_move", 300, 5000),
+            ("rejected_only_for_missing_authorization", 300, 5000),
+            ("roundtrip_probe", 150, 2500),
+            ("approve_by_operator", 15, 250),
+            ("approval_revoked", 40, 700),
+            ("operator_revoked", 50, 900),
+        ],
+        assumptions: vec![
+            "Soroban native test host (storage incl. temporary-entry TTL, rollback of failed invocations, auth matching) is trusted",
+            "an approval / operator approval is live while ledger <= live_until_ledger (DESIGN §4 C11; the library getters' documented comparison)",
+            "plain actors are contract addresses with an accept-all account contract: 'X authorized the call' == 'an entry of X for exactly this invocation is attached'",
+        ],
+    }
 }
